@@ -169,6 +169,17 @@ type PairCase struct {
 	SrcExt  string `json:"src_ext"`
 	Data    []byte `json:"data"`
 	DestExt string `json:"dest_ext"`
+	Shape   int    `json:"name_shape,omitempty"` // file-name shape, see nameShapes
+}
+
+// nameShapes: where the files live and what precedes the extension. The codec is chosen by the extension, i.e.
+// what follows the LAST dot of the file name; dots elsewhere (earlier in the name, in a directory) play no part.
+var nameShapes = []struct{ dir, in, out string }{
+	{"", "in", "out"},
+	{"", "movie.en", "movie.fr.v2"},        // further dots in the base name
+	{"season.1", "in", "out"},              // a dot in a directory name
+	{"", "in.ttml.bak", "out.srt.new"},     // another format's extension earlier in the name
+	{"d.srt", ".hidden.x", "name with sp"}, // leading dot, blank
 }
 
 func checkPair(pc PairCase, scratch string) (key, msg string, out uint64) {
@@ -177,7 +188,12 @@ func checkPair(pc PairCase, scratch string) (key, msg string, out uint64) {
 		return "", "", 0
 	}
 	defer os.RemoveAll(dir)
-	in := filepath.Join(dir, "in"+pc.SrcExt)
+	sh := nameShapes[pc.Shape%len(nameShapes)]
+	if sh.dir != "" {
+		dir = filepath.Join(dir, sh.dir)
+		os.Mkdir(dir, 0o755)
+	}
+	in := filepath.Join(dir, sh.in+pc.SrcExt)
 	os.WriteFile(in, pc.Data, 0o644)
 	dst := fmtOfExt(pc.DestExt)
 	tag := fmt.Sprintf("conv.%s->%s", fmtOfExt(pc.SrcExt), dst)
@@ -195,11 +211,15 @@ func checkPair(pc PairCase, scratch string) (key, msg string, out uint64) {
 		return tag + ".open-panic", "OpenFile panicked: " + pan, 0
 	}
 	if err != nil {
-		return "", "", core.Hash64("source unreadable") // not a readable source: outside the property
+		// not a readable source: outside the property - unless the format's reader does read these bytes
+		if _, rerr, rpan := corpus.Read(fmtOfExt(pc.SrcExt), bytes.NewReader(pc.Data)); rerr == nil && rpan == "" {
+			return tag + ".open-fails-on-readable-source", fmt.Sprintf("OpenFile(%q) failed (%v) although the %s reader reads the same bytes", filepath.Base(in), err, fmtOfExt(pc.SrcExt)), 0
+		}
+		return "", "", core.Hash64("source unreadable")
 	}
 	exp := project(s)
 	fps := stlFPS(s)
-	outp := filepath.Join(dir, "out"+pc.DestExt)
+	outp := filepath.Join(dir, sh.out+pc.DestExt)
 	func() {
 		defer func() {
 			if e := recover(); e != nil {
@@ -694,12 +714,14 @@ func run(c *core.Ctx) {
 				if !c.Mine() {
 					continue
 				}
-				pc := PairCase{Doc: d.Name, SrcExt: se, Data: d.Data, DestExt: de}
-				key, msg, out := checkPair(pc, c.Scratch)
-				c.Traces++
-				c.Record("pair.case", out, core.Hash64(d.Name, se, de), nil)
-				if key != "" {
-					c.Violate("pair", key, msg, pc, len(d.Data)+1)
+				for shape := range nameShapes {
+					pc := PairCase{Doc: d.Name, SrcExt: se, Data: d.Data, DestExt: de, Shape: shape}
+					key, msg, out := checkPair(pc, c.Scratch)
+					c.Traces++
+					c.Record("pair.case", out, core.Hash64(d.Name, se, de, fmt.Sprint(shape)), nil)
+					if key != "" {
+						c.Violate("pair", key, msg, pc, len(d.Data)+1+shape)
+					}
 				}
 			}
 		}
@@ -871,16 +893,22 @@ func checkInvalidExt(d corpus.Doc, scratch string) (string, string) {
 	if rerr != nil || pan != "" || len(s.Items) == 0 {
 		return "", ""
 	}
-	for _, ext := range []string{".xyz", "", ".srtx", ".ts"} {
+	os.Mkdir(filepath.Join(dir, "d.srt"), 0o755)
+	for _, ext := range []string{".xyz", "", ".srtx", ".ts", ".srt.xyz", ".srt.", "srt", ".s rt"} {
 		err := s.Write(filepath.Join(dir, "out"+ext))
+		if ext == "" && errors.Is(err, astisub.ErrInvalidExtension) {
+			err = s.Write(filepath.Join(dir, "d.srt", "out")) // the directory's name is not the file's extension
+		}
 		if !errors.Is(err, astisub.ErrInvalidExtension) {
 			return "ext.write-no-invalid-extension-error", fmt.Sprintf("Write to %q returned %v, expected ErrInvalidExtension", "out"+ext, err)
 		}
 	}
-	in := filepath.Join(dir, "in.xyz")
-	os.WriteFile(in, d.Data, 0o644)
-	if _, err := astisub.OpenFile(in); !errors.Is(err, astisub.ErrInvalidExtension) {
-		return "ext.open-no-invalid-extension-error", fmt.Sprintf("OpenFile(in.xyz) returned %v, expected ErrInvalidExtension", err)
+	for _, name := range []string{"in.xyz", "in." + d.Format + ".xyz", filepath.Join("d.srt", "in")} {
+		in := filepath.Join(dir, name)
+		os.WriteFile(in, d.Data, 0o644)
+		if _, err := astisub.OpenFile(in); !errors.Is(err, astisub.ErrInvalidExtension) {
+			return "ext.open-no-invalid-extension-error", fmt.Sprintf("OpenFile(%s) returned %v, expected ErrInvalidExtension", name, err)
+		}
 	}
 	return "", ""
 }
@@ -913,7 +941,7 @@ func replay(sub string, raw json.RawMessage) (string, bool) {
 func init() {
 	core.Register(&core.Prop{
 		ID: "C07", Level: "model_checking",
-		Rule: "(i) every readable corpus document x every destination extension through OpenFile + Write on real files (plus upper/mixed-case extensions and invalid extensions); (ii) explicit-state search: states = canonical cue lists reached from a source document by operation sequences over an 11-letter alphabet (sync +-1.5s / -inf, fragment 700ms / 2s, unfragment, merge, optimize, 2 linear corrections, order), deduplicated; every transition executed by the real operation and compared with the composed reference specifications of C09-C15; every reached state written to all five writers and read back; (iii) the CLI binary built from the tree: every (source, destination) pair under convert, every other sub-command on a rotation of pairs, output compared byte for byte with the library's for the same arguments, plus error exits. Oracle for a conversion: same number of cues in the same order, start/end truncated to the destination resolution (ms; cs for SSA; frame for STL), same text with white space disregarded; ErrNoSubtitlesToWrite for an empty list, ErrInvalidExtension for an unknown extension",
+		Rule: "(i) every readable corpus document x every destination extension through OpenFile + Write on real files (plus upper/mixed-case extensions x 5 file-name shapes - further dots in the base name or in a directory, another format's extension earlier in the name, leading dot, blank - and invalid extensions incl. a known one that is not last); (ii) explicit-state search: states = canonical cue lists reached from a source document by operation sequences over an 11-letter alphabet (sync +-1.5s / -inf, fragment 700ms / 2s, unfragment, merge, optimize, 2 linear corrections, order), deduplicated; every transition executed by the real operation and compared with the composed reference specifications of C09-C15; every reached state written to all five writers and read back; (iii) the CLI binary built from the tree: every (source, destination) pair under convert, every other sub-command on a rotation of pairs, output compared byte for byte with the library's for the same arguments, plus error exits. Oracle for a conversion: same number of cues in the same order, start/end truncated to the destination resolution (ms; cs for SSA; frame for STL), same text with white space disregarded; ErrNoSubtitlesToWrite for an empty list, ErrInvalidExtension for an unknown extension",
 		Scope: map[core.Tier]string{
 			core.Quick:    "all valid corpus documents x 6 destinations; source documents of every format x all operation sequences of length <=3 (1464 sequences, deduplicated by canonical state) x 5 writers; CLI: convert on all pairs, other sub-commands on a quarter of the pairs",
 			core.Thorough: "operation sequences of length <=4 (the property's own bound); CLI all sub-commands on all pairs",
